@@ -108,6 +108,12 @@ pub fn check_invariants(sc: &Scenario, tr: &Trace) -> CheckResult {
             SEv::Fault { conn, t, kind, .. } => {
                 faults.entry(*conn).or_insert((*t, *kind, *sent.get(conn).unwrap_or(&0)));
             }
+            // I5: the terminal was in the middle of an exchange (waiting for an acknowledgement, or about to send its next
+            //     packet) when a new command arrived on the same connection: the client gave that exchange up (an outer
+            //     time-out, a dropped future) and kept the connection
+            SEv::Unexpected { conn, apdu, t } if apdu[..] != ACK => {
+                return v("I5", "command-into-unfinished-exchange", format!("connection {conn} at {t:.0} s: the terminal was still inside its {:?} exchange when the client wrote {} on the same connection", last_rx_kind.get(conn), clip(&hex(apdu), 60)));
+            }
             _ => {}
         }
     }
@@ -323,6 +329,31 @@ pub fn run(tier: Tier) -> i32 {
         }
     }
     stats.merge(s1a);
+    // 1aa. time budgets: k consecutive silent attempts of one exchange inside Feig::new (k x 60 s), and a terminal that is
+    //      merely slow (every packet of the long exchanges 50 s late, eight intermediate statuses: minutes per exchange, no
+    //      single time-out) - then two more calls
+    let mut s1b = Stats::new();
+    for k in 1..=9usize {
+        for kind in [Kind::Init, Kind::EndOfDay, Kind::SetTerminalId] {
+            let mut sc = with_followup(base_scenario("new", cfg0.clone()));
+            sc.sim.intermediates = 1;
+            sc.plan = (0..k).map(|o| PlanEntry { kind, occ: Some(o), from_start: true, directive: Directive { fault: Some((FaultKind::Silence, 1)), ..Default::default() } }).collect();
+            s1b.case(true, fnv(&serde_json::to_vec(&sc).unwrap()));
+            s1b.class("new:k-consecutive-silent-attempts");
+            ctx.record(check_scenario(&sc), &mut s1b);
+        }
+    }
+    for (ms, inter) in [(50_000u64, 8usize), (30_000, 12), (59_000, 6), (10_000, 40)] {
+        for op in ["new", "configure", "commit"] {
+            let mut sc = with_followup(base_scenario(op, cfg0.clone()));
+            sc.sim.intermediates = inter;
+            sc.plan = [Kind::Init, Kind::EndOfDay, Kind::PartialReversal].iter().map(|k| PlanEntry { kind: *k, occ: None, from_start: op == "new", directive: Directive { delay_ms: Some((98, ms)), ..Default::default() } }).collect();
+            s1b.case(true, fnv(&serde_json::to_vec(&sc).unwrap()));
+            s1b.class("slow-terminal:every-packet-late-but-inside-the-time-out");
+            ctx.record(check_scenario(&sc), &mut s1b);
+        }
+    }
+    stats.merge(s1b);
     // 1b. configurations: the registration on every (re)connection carries the configured password and currency
     let s = ctx.shards("configs", 8, |_i, seed, st| {
         let strat = (
@@ -368,7 +399,7 @@ pub fn run(tier: Tier) -> i32 {
     stats.exhaustive_parts = vec!["single faults {close, garbage, NACK, silence} at every packet position of every exchange of each of the 6 operations (handshake included, also the handshake of a forced reconnect), wrong serial at the identity check; each followed by a further call".into()];
     ctx.finish(
         stats,
-        "the real Feig client against the simulated terminal on paused time; positions from a fault-free dry run; one fault per position and kind (exhaustive), configured serial numbers that are a prefix / empty / longer / one character off the reported one, then proptest plans of 2..6 faults (incl. several wrong-serial connections in a row), each followed by one more fault-free call. Oracle = invariants over the client-side per-connection log: I1 every connection starts with Registration(password, config byte, currency) then the system-info query before any other command; I2 nothing but one ack is written after a wrong serial and the connection is closed; I3 after a delivered fault (garbage/NACK read, EOF, time-out after silence) nothing is written on that connection and it is dropped before the next one opens; I4 a connection whose exchanges all completed is kept and reused without a new Registration. non-trivial = fault at a handshake position or at a reply position >= 1, every multi-fault plan; distinct by scenario",
+        "the real Feig client against the simulated terminal on paused time; positions from a fault-free dry run; one fault per position and kind (exhaustive), configured serial numbers that are a prefix / empty / longer / one character off the reported one, then proptest plans of 2..6 faults (incl. several wrong-serial connections in a row), each followed by one more fault-free call. Oracle = invariants over the client-side per-connection log: I1 every connection starts with Registration(password, config byte, currency) then the system-info query before any other command; I2 nothing but one ack is written after a wrong serial and the connection is closed; I3 after a delivered fault (garbage/NACK read, EOF, time-out after silence) nothing is written on that connection and it is dropped before the next one opens; I4 a connection whose exchanges all completed is kept and reused without a new Registration; I5 no command is written on a connection whose terminal is still inside an exchange. Also: 1..9 consecutive silent attempts inside Feig::new and a slow terminal (every packet 10..59 s late, minutes per exchange) followed by further calls. non-trivial = fault at a handshake position or at a reply position >= 1, every multi-fault plan; distinct by scenario",
         &["the client-side log is written by the stream object handed to the client (virtual time stamps), so orderings do not depend on task scheduling", "fault kinds of Appendix C; RSTs / short writes are not modelled"],
         false,
     )
